@@ -198,7 +198,7 @@ def emit(name, tier, arms, clause, timeout):
     ndiv = max(text(t, f).count("/") for (t, f, _l) in arms)
     mem = 3500 if ndiv < 1 else 12000
     cost = (30 if ndiv == 0 else 90 if ndiv == 1 else 600) * len(arms)
-    if ndiv >= 2:
+    if ndiv >= 2 or (ndiv >= 1 and name.startswith("c02_unary_fn")):
         timeout = max(timeout, 1500)
         tier = "thorough"
     out.append('// @verif prop=C02 tier=%s timeout=%d arms=%d mem=%d cost=%d clause="%s"' % (tier, timeout, len(arms), mem, cost, clause))
